@@ -55,6 +55,14 @@ fn main() {
         for len in [0usize, 1, 23, 600] { check("network blockfetch", &blockfetch::Message::Block { body: vec![0xa5; len] }, same, &mut n); }
         for p in points.iter().step_by(7) { for q in points.iter().step_by(11) { check("network blockfetch", &blockfetch::Message::RequestRange { range: (p.clone(), q.clone()) }, same, &mut n); } }
     }
+    {   // tx-submission payloads (pallas-network)
+        use pallas_network::miniprotocols::txsubmission::{EraTxBody, EraTxId, TxIdAndSize};
+        for era in [0u16, 1, 6, 23, 24, 65535] { for len in [0usize, 1, 32, 300] {
+            check("network EraTxId", &EraTxId(era, vec![0x5a; len]), |a, b| a == b, &mut n);
+            check("network EraTxBody", &EraTxBody(era, vec![0xc3; len]), |a, b| a == b, &mut n);
+            for size in [0u32, 1, 65536, u32::MAX] { check("network TxIdAndSize", &TxIdAndSize(EraTxId(era, vec![0x5a; len]), size), |a, b| a == b, &mut n); }
+        } }
+    }
     {   // pallas-network2
         use pallas_network2::protocol::{chainsync::Tip, keepalive, Point};
         let mut points = vec![Point::Origin];
